@@ -198,5 +198,16 @@ pub fn readme_example() {
     }
     // re-exports
     let _: rustfft::num_complex::Complex<f64> = rustfft::num_complex::Complex::new(1.0, 2.0);
+    // the re-exported Complex comes with its float helpers (they exist only when num-complex is built with `std` or `libm`;
+    // this crate has no dependency edge to num-complex of its own)
+    let _: fn(Complex<f64>) -> f64 = Complex::<f64>::norm;
+    let _: fn(Complex<f32>) -> f32 = Complex::<f32>::arg;
+    let _: fn(f64, f64) -> Complex<f64> = Complex::<f64>::from_polar;
+    let _: fn(Complex<f64>) -> (f64, f64) = Complex::<f64>::to_polar;
+    let _: fn(f32) -> Complex<f32> = Complex::<f32>::cis;
+    let _: fn(Complex<f64>) -> Complex<f64> = Complex::<f64>::exp;
+    let _: fn(Complex<f64>) -> Complex<f64> = Complex::<f64>::sqrt;
+    let _: fn(Complex<f64>, f64) -> Complex<f64> = Complex::<f64>::powf;
+    let _: fn(&Complex<f64>) -> f64 = Complex::<f64>::norm_sqr;
     let _: f64 = rustfft::num_traits::Zero::zero();
 }
